@@ -8,6 +8,7 @@ import (
 	"hash/fnv"
 	"net/http"
 	"net/http/httptest"
+	"net/url"
 	"reflect"
 	"sort"
 	"strings"
@@ -203,7 +204,7 @@ func runWorldB(rc *RunCtx, prop string) *RunResult {
 	pick := func(name string, vals ...int) { w.rates[name] = vals[T.Draw(len(vals), "cfg.rate."+name)] }
 
 	switch prop {
-	case "C20", "C11", "C04", "C05", "C12":
+	case "C20", "C11", "C04", "C05", "C12", "C06":
 		pick("cas.werr", 0, 0, 80, 200)
 		pick("anchor.err", 0, 0, 80, 200)
 		pick("req.dup", 0, 0, 100)
@@ -1786,9 +1787,24 @@ func countUndelivered(ts []*bTxn) int {
 
 // storedModelOps: descriptors of the DID's operations the node has stored, with ledger coordinates.
 func (w *bWorld) storedModelOps(d *bDID) []*refmodel.Op {
-	var out []*refmodel.Op
+	ops, _ := w.storedModelOpsRefs(d)
+
+	return ops
+}
+
+// storedModelOpsRefs: the reference descriptors of the DID's stored operations, stamped from the ledger, and the
+// canonical reference of the transaction each came from.
+func (w *bWorld) storedModelOpsRefs(d *bDID) ([]*refmodel.Op, []string) {
+	var (
+		out   []*refmodel.Op
+		crefs []string
+	)
 
 	add := func(op *bOp, ti int) {
+		if op.Suffix != "" && op.Suffix != d.Suffix {
+			return // a retried create accepted under a version with another hash algorithm: stored under its own suffix, no part of this DID's history
+		}
+
 		t := w.ledger.Txns[ti]
 		m := *op.M
 		m.Time, m.Number, m.Published = t.TransactionTime, t.TransactionNumber, true
@@ -1800,6 +1816,7 @@ func (w *bWorld) storedModelOps(d *bDID) []*refmodel.Op {
 		}
 
 		out = append(out, &m)
+		crefs = append(crefs, t.CanonicalReference)
 	}
 
 	for _, op := range d.Ops {
@@ -1819,7 +1836,7 @@ func (w *bWorld) storedModelOps(d *bDID) []*refmodel.Op {
 		}
 	}
 
-	return out
+	return out, crefs
 }
 
 func (w *bWorld) finalOracles() {
@@ -1857,6 +1874,10 @@ func (w *bWorld) finalOracles() {
 		}
 
 		mops := w.storedModelOps(d)
+
+		if w.prop == "C06" {
+			w.versionCutChecks(d)
+		}
 
 		if w.useUnpub {
 			for _, e := range w.unpub.Ops[d.Suffix] {
@@ -2151,6 +2172,189 @@ func (w *bWorld) externalChecks(d *bDID, st *refmodel.State) {
 	}
 }
 
+// versionCutChecks (C06, through the whole node): the DID – addressed by its short form or by its long form –
+// resolved through the REST resolver and the document handler at a version time or version id shows the reference
+// state of the stored history truncated at that cut; a cut outside the history is an error for either form.
+func (w *bWorld) versionCutChecks(d *bDID) {
+	if w.useUnpub && len(w.unpub.Ops[d.Suffix]) > 0 {
+		return // a pending unpublished operation: the property speaks of anchored operations only
+	}
+
+	mops, crefs := w.storedModelOpsRefs(d)
+	if len(mops) == 0 {
+		return
+	}
+
+	idx := make([]int, len(mops))
+	for i := range idx {
+		idx[i] = i
+	}
+
+	sort.SliceStable(idx, func(a, b int) bool {
+		x, y := mops[idx[a]], mops[idx[b]]
+		if x.Time != y.Time {
+			return x.Time < y.Time
+		}
+
+		return x.Number < y.Number
+	})
+
+	short := bNS + ":" + d.Suffix
+	forms := []string{short}
+
+	longUsable := false
+
+	if d.Create != nil {
+		var cr map[string]interface{}
+		if json.Unmarshal(d.Create.Req, &cr) == nil {
+			delete(cr, "type")
+
+			if jcs, err := jcsOf(cr); err == nil {
+				forms = append(forms, short+":"+encoder.EncodeToString(jcs))
+				// (a long-form DID is tied to the hash algorithm of the version that was current when it was built)
+				longUsable = w.proto.CurrentVersion().P.GenesisTime == d.Create.Version
+			}
+		}
+	}
+
+	rfc := func(t uint64) string { return time.Unix(int64(t), 0).UTC().Format(time.RFC3339) }
+
+	first := mops[idx[0]].Time
+
+	// cuts outside the history
+	for fi, form := range forms {
+		for _, q := range []string{"versionId=no-such-version", "versionTime=" + url.QueryEscape(rfc(first-1)), "versionTime=" + url.QueryEscape(rfc(first-1000))} {
+			if code, m := w.get(form + "?" + q); code == http.StatusOK {
+				w.fail("C06", "node/cut-outside-history", fmt.Sprintf("did%d (%s form) resolved with %s, a cut outside its history (first operation at %d): %v",
+					d.Idx, []string{"short", "long"}[fi], q, first, m))
+
+				return
+			}
+
+			w.k.Count("probe:node-cut-outside-history-refused")
+		}
+	}
+
+	// cuts inside the history
+	for n := 0; n < 3; n++ {
+		i := w.k.T.Draw(len(idx), "cut.index")
+		if n == 0 {
+			i = len(idx) - 1
+		}
+
+		byTime := w.k.T.Draw(2, "cut.kind") == 0
+		fi := w.k.T.Draw(len(forms), "cut.form")
+
+		var (
+			kept []*refmodel.Op
+			q    string
+		)
+
+		if byTime {
+			t := mops[idx[i]].Time
+			q = "versionTime=" + url.QueryEscape(rfc(t))
+
+			for _, j := range idx {
+				if mops[j].Time <= t {
+					kept = append(kept, mops[j])
+				}
+			}
+		} else {
+			q = "versionId=" + url.QueryEscape(crefs[idx[i]])
+
+			for _, j := range idx[:i+1] {
+				kept = append(kept, mops[j])
+			}
+		}
+
+		st, merr := refmodel.Resolve(kept)
+		code, m := w.get(forms[fi] + "?" + q)
+		what := fmt.Sprintf("did%d (%s form) at %s (%d of %d stored operations)", d.Idx, []string{"short", "long"}[fi], q, len(kept), len(mops))
+
+		if merr != nil {
+			if code == http.StatusOK {
+				w.fail("C06", "node/cut-without-create", fmt.Sprintf("%s resolved although the truncated history has no applicable create: %v", what, m))
+
+				return
+			}
+
+			continue
+		}
+
+		if code != http.StatusOK {
+			if fi == 1 && !longUsable {
+				continue
+			}
+
+			w.fail("C06", "node/cut-refused", fmt.Sprintf("%s: the truncated history resolves in the reference model, the node answered %d %v", what, code, m))
+
+			return
+		}
+
+		if st.Deactivated {
+			md, _ := m["didDocumentMetadata"].(map[string]interface{})
+			if md == nil || md["deactivated"] != true {
+				w.fail("C06", "node/cut-state", fmt.Sprintf("%s: the truncated history ends deactivated, the node's metadata does not say so: %v", what, md))
+
+				return
+			}
+
+			continue
+		}
+
+		doc, _ := m["didDocument"].(map[string]interface{})
+		rel := func(id string) string {
+			for _, f := range []string{forms[len(forms)-1], short} {
+				id = strings.TrimPrefix(id, f)
+			}
+
+			return id
+		}
+
+		var gotKeys, wantKeys, gotSvcs, wantSvcs []string
+
+		if l, ok := doc["verificationMethod"].([]interface{}); ok {
+			for _, e := range l {
+				em, _ := e.(map[string]interface{})
+				id, _ := em["id"].(string)
+				jwk, _ := em["publicKeyJwk"].(map[string]interface{})
+				x, _ := jwk["x"].(string)
+				gotKeys = append(gotKeys, rel(id)+"="+x)
+			}
+		}
+
+		for _, e := range st.Doc.Keys {
+			wantKeys = append(wantKeys, "#"+e.ID+"="+e.Mark)
+		}
+
+		if l, ok := doc["service"].([]interface{}); ok {
+			for _, e := range l {
+				em, _ := e.(map[string]interface{})
+				id, _ := em["id"].(string)
+				ep, _ := em["serviceEndpoint"].(string)
+				gotSvcs = append(gotSvcs, rel(id)+"="+strings.TrimPrefix(ep, "https://sim.example/"))
+			}
+		}
+
+		for _, e := range st.Doc.Svcs {
+			wantSvcs = append(wantSvcs, "#"+e.ID+"="+e.Mark)
+		}
+
+		if fmt.Sprint(gotKeys) != fmt.Sprint(wantKeys) || fmt.Sprint(gotSvcs) != fmt.Sprint(wantSvcs) {
+			w.fail("C06", "node/cut-state", fmt.Sprintf("%s: the node shows keys %v services %v, the truncated history gives keys %v services %v (model applied %v of %s)",
+				what, gotKeys, gotSvcs, wantKeys, wantSvcs, st.Applied, refmodel.Describe(kept)))
+
+			return
+		}
+
+		w.k.Count("probe:node-cut-equal-to-model")
+
+		if len(kept) < len(mops) && len(st.Applied) > 1 {
+			w.nontrivial = true
+		}
+	}
+}
+
 func jcsOf(v interface{}) ([]byte, error) { return canonicalizer.MarshalCanonical(v) }
 
 func init() {
@@ -2169,4 +2373,6 @@ func init() {
 		p := p
 		register(p, Scenario{Name: "B-intake", World: "B", Weight: 1, Run: func(rc *RunCtx) *RunResult { return runWorldB(rc, p) }})
 	}
+
+	register("C06", Scenario{Name: "B-version-cut", World: "B", Weight: 1, Run: func(rc *RunCtx) *RunResult { return runWorldB(rc, "C06") }})
 }
